@@ -575,3 +575,32 @@ Proof.
   intro s'. destruct (po_find_after_set s n 10 v) as [p [Hf Hd]]. fold s' in Hf. cbn in Hd.
   apply po_get_mismatch. intros p' Hp' t0 v0 Hd0. rewrite Hf in Hp'. injection Hp' as <-. congruence.
 Qed.
+
+(* an overwrite stores exactly the value written - its identity, not a value merely == to it - whatever was
+   stored before (in particular when the old value is ==-equal to the new one and differs from it) *)
+Lemma po_set_exact s n form v :
+  option_map p_data (po_find (fst (po_step s (PSet n form v))) n) = Some (store_of form v).
+Proof. destruct (po_find_after_set s n form v) as [p [Hf Hd]]. rewrite Hf. cbn. rewrite Hd. reflexivity. Qed.
+
+Lemma po_set_exact_over_equal s n form old v t :
+  val_eq old v = true -> old <> v -> store_of form v = Some (t, v) ->
+  let s1 := fst (po_step s (PSet n form old)) in
+  option_map p_data (po_find (fst (po_step s1 (PSet n form v))) n) = Some (Some (t, v)) /\
+  option_map p_data (po_find (fst (po_step s1 (PSet n form v))) n) <> option_map p_data (po_find s1 n).
+Proof.
+  intros _ Hne Hs s1. rewrite po_set_exact, Hs. split; [reflexivity|].
+  unfold s1. rewrite po_set_exact. intro E. injection E as E.
+  destruct form as [|q]; cbn in Hs, E; [congruence|].
+  repeat (destruct q as [q|q|]; cbn in Hs, E; try congruence).
+Qed.
+
+Lemma fm_set_exact m k v : fm_inv m -> fm_lookup (fst (fm_step m (FSet k v))) k = Some v.
+Proof. intro ND. rewrite (fm_step_lookup m (FSet k v) k ND). cbn. rewrite N.eqb_refl. reflexivity. Qed.
+
+Lemma fm_set_then_read m k v :
+  fm_inv m ->
+  let m' := fst (fm_step m (FSet k v)) in
+  snd (fm_step m' (FAt k)) = OVal v /\ snd (fm_step m' (FIndex k)) = OVal v /\ snd (fm_step m' (FAtC k)) = OVal v.
+Proof.
+  intros ND m'. pose proof (fm_set_exact m k v ND) as L. fold m' in L. cbn [fm_step snd]. rewrite L. auto.
+Qed.
